@@ -242,7 +242,13 @@ class ACSE:
             return False, None
 
         setattr(self.assoc, "abort", self.assoc._abort_blocking)
-        identity_verified, response = cast(tuple[bool, bytes | None], rsp)
+        try:
+            identity_verified, response = cast(tuple[bool, bytes | None], rsp)
+        except (TypeError, ValueError) as exc:
+            # The handler must return (bool, bytes or None)
+            LOGGER.error("Invalid value returned by handler bound to 'evt.EVT_USER_ID'")
+            LOGGER.exception(exc)
+            return False, None
 
         if not identity_verified:
             # Reject association as the user isn't authorised
